@@ -18,6 +18,32 @@ var cmdSegments = []string{"a", "ab", "abc", "b", "bc", "c", "foo", "foobar", "s
 var cmdAlike = map[string]string{"s": "\u017f", "\u017f": "s", "\u03bb\u03bf\u03b3\u03bf\u03c2": "\u03bb\u03bf\u03b3\u03bf\u03c3", "\u03bb\u03bf\u03b3\u03bf\u03c3": "\u03bb\u03bf\u03b3\u03bf\u03c2",
 	"\u00e9": "e\u0301", "e\u0301": "\u00e9", "i": "\u0131", "\u0131": "i"}
 
+// spot is the "spotlight" of the run being generated: one deliberately designed situation that
+// every fourth run (by run index) is made to contain for certain, instead of leaving it to the
+// odds of the swarm configuration; "" = none. Which situations are taken in turn depends on the
+// property the batch is focused on. (The generator is single-threaded per process.)
+var spot string
+
+var spotlights = map[string][]string{
+	"C01": {"swap-recheck", "other-invoker", "sibling-P", "inv-as-proof", "lookalike", "long-chain", "prov-dlg", "hook-twice"},
+	"C02": {"self-K", "sibling-K", "alike", "deep", "top-under-one", "long-chain"},
+	"C03": {"uslice", "nullopt", "alias", "twin", "sibling-Q", "hook-null", "optional-and"},
+	"C04": {"far-nbf", "sibling-W", "both-bounds", "unbounded-then-bad"},
+	"C05": {"far-exp", "uslice", "prov-inv", "prov-dlg", "hook-twice", "long-chain", "reuse"},
+	"C07": {"far-exp", "uslice", "nullopt"},
+	"C09": {"inv-as-proof", "long-chain", "deep"},
+	"":    {"swap-recheck", "other-invoker", "self-K", "sibling-K", "uslice", "nullopt", "alias", "twin", "far-nbf", "far-exp", "inv-as-proof", "sibling-W"},
+}
+
+// spotWant: a situation is taken if it is this run's spotlight, otherwise with probability p.
+func spotWant(r *Rand, name string, p float64) bool {
+	if spot == name {
+		r.Chance(p) // (keep the stream aligned)
+		return true
+	}
+	return r.Chance(p)
+}
+
 // deepCommands lifts the depth limit of generated commands for the run being generated
 // (set and reset by genWorld; the generator is single-threaded per process).
 var deepCommands bool
@@ -131,6 +157,9 @@ func notCovered(r *Rand, base string) (string, string) {
 	kinds := []string{"parent", "sibling", "textprefix", "top", "emptyseg", "emptyseg"}
 	if cmdAlike[last] != "" {
 		kinds = append(kinds, "alike", "alike", "alike")
+		if spot == "alike" {
+			kinds = []string{"alike"}
+		}
 	}
 	switch Pick(r, kinds) {
 	case "alike":
@@ -195,9 +224,9 @@ func genArgs(r *Rand) []KV {
 		}
 		out = append(out, KV{"l", Val{K: "list", L: l}})
 	}
-	if r.Chance(0.35) {
+	if spotWant(r, "nullopt", 0.35) {
 		m := vMap(KV{"x", vInt(int64(r.Range(0, 9)))}, KV{"y", vStr(randWord(r, 1, 4))})
-		if r.Chance(0.3) {
+		if spotWant(r, "nullopt", 0.3) {
 			// a field that is present and holds an explicit null
 			m.M = append(m.M, KV{"z", vNull()})
 		}
@@ -209,10 +238,14 @@ func genArgs(r *Rand) []KV {
 	if r.Chance(0.2) {
 		out = append(out, KV{"b", vBool(r.Chance(0.5))})
 	}
-	if r.Chance(0.25) {
+	if spotWant(r, "uslice", 0.25) {
 		// a string with characters of 1, 2, 3 and 4 UTF-8 bytes (slices count characters)
 		alphabet := []rune("ab\u00e9\u00fc\u65e5\u672c\U0001d11ez.")
 		n := r.Range(0, 9)
+		if spot == "uslice" {
+			n = r.Range(4, 9)
+			alphabet = alphabet[2:7] // multi-byte characters only
+		}
 		rs := make([]rune, n)
 		for i := range rs {
 			rs[i] = alphabet[r.Intn(len(alphabet))]
@@ -315,8 +348,12 @@ func genStmt0(r *Rand, a []KV, want bool, depth int, top bool) Stmt {
 		}
 		return Stmt{Op: "==", Sel: ".zz", Val: ptr(vInt(1))}
 	}
-	if depth < 2 && r.Chance(0.25) {
-		switch r.Intn(3) {
+	if depth < 2 && (r.Chance(0.25) || (spot == "optional-and" && depth == 0 && top)) {
+		which := r.Intn(3)
+		if spot == "optional-and" && depth == 0 && top {
+			which = 1
+		}
+		switch which {
 		case 0:
 			return Stmt{Op: "not", Kids: []Stmt{genStmt(r, a, !want, depth+1, false)}}
 		case 1: // and
@@ -326,7 +363,7 @@ func genStmt0(r *Rand, a []KV, want bool, depth int, top bool) Stmt {
 			// (no not/or above them), where a missing path has an indisputable reading
 			for i := range kids {
 				kids[i] = genStmt(r, a, true, depth+1, top)
-				if top && r.Chance(0.3) {
+				if top && spotWant(r, "optional-and", 0.3) {
 					// an operand over a missing optional value: says nothing, the others still bind
 					kids[i] = Stmt{Op: Pick(r, []string{"==", "<", "like"}), Sel: Pick(r, []string{".zz?", ".m.zz?", ".yy?"}), Val: ptr(vInt(int64(r.Range(0, 5)))), Pat: "a*"}
 				}
@@ -355,6 +392,13 @@ func genStmt0(r *Rand, a []KV, want bool, depth int, top bool) Stmt {
 		return Stmt{Op: Pick(r, []string{"==", "<", ">="}), Sel: Pick(r, []string{".zz", ".m.zz", ".zz.y"}), Val: ptr(vInt(int64(r.Range(0, 5))))}
 	}
 	kv := a[r.Intn(len(a))]
+	if top && (spot == "uslice" || spot == "nullopt") {
+		for _, x := range a {
+			if (spot == "uslice" && x.Key == "u") || (spot == "nullopt" && x.Key == "m") {
+				kv = x
+			}
+		}
+	}
 	sel := "." + kv.Key
 	v := kv.V
 	switch v.K {
@@ -387,7 +431,7 @@ func genStmt0(r *Rand, a []KV, want bool, depth int, top bool) Stmt {
 		return Pick(r, []Stmt{{Op: "==", Sel: sel, Val: ptr(vFloat(f + 1))}, {Op: ">", Sel: sel, Val: ptr(vFloat(f))}, {Op: "<=", Sel: sel, Val: ptr(vFloat(f - 0.25))},
 			{Op: "==", Sel: sel, Val: ptr(vInt(int64(f)))}})
 	case "str":
-		if nr := len([]rune(v.S)); r.Chance(0.45) || (kv.Key == "u" && r.Chance(0.6)) {
+		if nr := len([]rune(v.S)); r.Chance(0.45) || (kv.Key == "u" && spotWant(r, "uslice", 0.6)) {
 			// a slice of the string, by characters: prefix, suffix (negative start), window,
 			// bounds beyond the end (clamped)
 			a, b := r.Range(0, nr), r.Range(0, nr)
@@ -507,7 +551,7 @@ func genStmt0(r *Rand, a []KV, want bool, depth int, top bool) Stmt {
 	case "map":
 		x, _ := v.get("x")
 		y, _ := v.get("y")
-		if z, ok := v.get("z"); ok && z.K == "null" && top && r.Chance(0.5) {
+		if z, ok := v.get("z"); ok && z.K == "null" && top && spotWant(r, "nullopt", 0.5) {
 			// null is a value: it is there, it equals null and nothing else, it is not ordered
 			if want {
 				return Stmt{Op: "==", Sel: sel + Pick(r, []string{".z", ".z?"}), Val: ptr(vNull())}
@@ -596,9 +640,19 @@ func (g *wgen) buildChain(n int, tcSec int64, args []KV) *chain {
 			c.holders = append(c.holders, r.Intn(len(g.cast)))
 		}
 	}
+	if spot == "self-K" && n >= 2 {
+		i := 1 + r.Intn(n-1) // link i is issued by and to the same principal
+		c.holders[i+1] = c.holders[i]
+	}
 	cmd := "/"
 	for i := r.Intn(3); i > 0; i-- {
 		cmd = extendCmd(r, cmd)
+	}
+	switch spot {
+	case "alike":
+		cmd = "/" + Pick(r, []string{"s", "\u03bb\u03bf\u03b3\u03bf\u03c2", "\u00e9", "i"})
+	case "top-under-one":
+		cmd = "/"
 	}
 	if deepCommands {
 		for i := r.Range(6, 30); i > 0; i-- {
@@ -688,9 +742,9 @@ func (g *wgen) buildReuseChain(tcSec int64, args []KV) *chain {
 func (g *wgen) bounds(nbf, exp **int64, tcSec int64) {
 	r := g.r
 	margins := []int64{1, 2, 60, 3600, 86400 * 400, 86400 * 365 * 30, 86400 * 365 * 200} // (a time.Duration spans 292 years: With…In cannot express more)
-	if r.Chance(0.5) {
+	if spotWant(r, "far-exp", 0.5) {
 		*exp = ptr(tcSec + 1 + Pick(r, margins))
-		if r.Chance(0.2) {
+		if spotWant(r, "far-exp", 0.2) {
 			// "never expires" as people write it: absolute instants centuries and millennia ahead
 			*exp = ptr(Pick(r, farFuture) - simEpochUnix)
 		}
@@ -765,6 +819,15 @@ func genWorld(r *Rand, cfg GenCfg) Plan {
 	g := &wgen{r: r, g: cfg}
 	g.cast = genCast(r, cfg.Tier, 3, 7)
 	focus := cfg.Focus
+	spot = ""
+	if cfg.Index%4 == 1 {
+		l := spotlights[focus]
+		if l == nil {
+			l = spotlights[""]
+		}
+		spot = l[int(cfg.Index/4)%len(l)]
+	}
+	defer func() { spot = "" }()
 
 	// --- time plan
 	g.now = int64(r.Range(1, 1000)) * 1_000_000_000
@@ -780,16 +843,26 @@ func genWorld(r *Rand, cfg GenCfg) Plan {
 	}
 
 	// --- main chain
-	deepCommands = r.Chance(0.04)
+	deepCommands = spotWant(r, "deep", 0.04)
 	defer func() { deepCommands = false }()
 	nLinks := []int{1, 1, 2, 2, 3, 3, 4, 5, 6, 8, 0}[r.Intn(11)]
-	if r.Chance(0.03) {
+	switch spot {
+	case "alias", "self-K", "sibling-K", "sibling-P", "sibling-Q", "sibling-W", "unbounded-then-bad", "top-under-one", "twin":
+		if nLinks < 3 {
+			nLinks = 3 + r.Intn(3)
+		}
+	case "swap-recheck", "other-invoker", "inv-as-proof", "lookalike", "hook-twice", "prov-dlg", "prov-inv":
+		if nLinks < 1 {
+			nLinks = 1 + r.Intn(4)
+		}
+	}
+	if spotWant(r, "long-chain", 0.03) {
 		// beyond any small fixed capacity
 		nLinks = []int{9, 12, 16, 17, 33, 65}[r.Intn(6)]
 	}
 	args := genArgs(r)
 	c := g.buildChain(nLinks, tcSec, args)
-	if r.Chance(0.05) {
+	if spotWant(r, "reuse", 0.05) {
 		c = g.buildReuseChain(tcSec, args)
 	}
 
@@ -804,6 +877,25 @@ func genWorld(r *Rand, cfg GenCfg) Plan {
 	conform := r.Chance(map[string]float64{"C05": 0.7, "C01": 0.3, "C02": 0.3, "C03": 0.3, "C04": 0.3}[focus] + 0.05)
 	if focus == "" {
 		conform = r.Chance(0.4)
+	}
+	forced := ""
+	switch spot {
+	case "swap-recheck", "other-invoker", "sibling-P", "sibling-K", "sibling-Q", "sibling-W", "prov-dlg", "prov-inv", "hook-twice", "far-exp", "reuse":
+		conform = true
+	case "self-K", "alike", "top-under-one":
+		conform, forced = false, "K"
+	case "inv-as-proof", "lookalike":
+		conform, forced = false, "P"
+	case "alias", "twin", "hook-null", "optional-and":
+		conform, forced = false, "Q"
+	case "far-nbf", "both-bounds", "unbounded-then-bad":
+		conform, forced = false, "W"
+	case "uslice", "nullopt":
+		if focus == "C03" {
+			conform, forced = false, "Q"
+		} else {
+			conform = true
+		}
 	}
 	notShipped := map[string]bool{}
 	if !conform {
@@ -820,8 +912,15 @@ func genWorld(r *Rand, cfg GenCfg) Plan {
 		case "C04":
 			w = []int{1, 1, 1, 8}
 		}
+		if forced != "" {
+			nDev = 1
+		}
 		for i := 0; i < nDev; i++ {
-			switch kinds[r.Weighted(w)] {
+			kd := kinds[r.Weighted(w)]
+			if forced != "" {
+				kd = forced
+			}
+			switch kd {
 			case "P":
 				g.deviateP(c, foreign, notShipped)
 			case "K":
@@ -916,12 +1015,24 @@ func genWorld(r *Rand, cfg GenCfg) Plan {
 		if r.Chance(0.3) {
 			ck.Prov = Pick(r, []string{"inv-built", "dlg-built", "all-built"})
 		}
+		switch spot {
+		case "prov-dlg":
+			ck.Prov = Pick(r, []string{"dlg-built", "all-built"})
+		case "prov-inv":
+			ck.Prov = Pick(r, []string{"inv-built", "all-built"})
+		}
 		ph := 0.25
 		if focus == "C03" {
 			ph = 0.5
 		}
-		if r.Chance(ph) {
+		if r.Chance(ph) || spot == "hook-twice" || spot == "hook-null" {
 			ck.Hook = Pick(r, []string{"identity", "add", "add-include", "remove", "replace", "fail"})
+			switch spot {
+			case "hook-twice":
+				ck.Hook = Pick(r, []string{"add", "add-include"})
+			case "hook-null":
+				ck.Hook = "replace"
+			}
 			if len(args) > 0 && r.Chance(0.8) {
 				kv := args[r.Intn(len(args))]
 				ck.HookKey = kv.Key
@@ -932,7 +1043,7 @@ func genWorld(r *Rand, cfg GenCfg) Plan {
 					nv.S = randWord(r, 0, 4)
 				}
 				ck.HookVal = &nv
-				if ck.Hook == "replace" && r.Chance(0.3) {
+				if ck.Hook == "replace" && spotWant(r, "hook-null", 0.3) {
 					ck.HookVal = ptr(vNull())
 				}
 			} else {
@@ -1007,17 +1118,34 @@ func genWorld(r *Rand, cfg GenCfg) Plan {
 	// --- the main check at Tc
 	g.tickTo(tcNS)
 	g.emit(WStep{Op: "check", Check: mkCheck()})
+	if conform && len(c.inv.Prf) > 0 && len(dl) > 1 && spotWant(r, "swap-recheck", 0.1) {
+		// everything delivered for certain, a clean check (allowed), and then the same invocation
+		// against a store that answers one call with another delegation it holds, or not at all
+		g.emit(WStep{Op: "ship", Ship: g.shipSpec(append(append([]string{}, dl...), il...), false)})
+		g.emit(WStep{Op: "check", Check: &CheckSpec{Inv: c.inv.Label}})
+		call := r.Intn(len(c.inv.Prf))
+		with := dl[r.Intn(len(dl))]
+		for tries := 0; tries < 4 && with == c.inv.Prf[call]; tries++ {
+			with = dl[r.Intn(len(dl))]
+		}
+		g.emit(WStep{Op: "check", Check: &CheckSpec{Inv: c.inv.Label, LFaults: []LoaderFault{{Call: call, Kind: "swap", With: with}}}})
+		g.emit(WStep{Op: "check", Check: &CheckSpec{Inv: c.inv.Label, LFaults: []LoaderFault{{Call: r.Intn(len(c.inv.Prf)), Kind: Pick(r, []string{"notfound", "error"})}}}})
+		g.emit(WStep{Op: "check", Check: &CheckSpec{Inv: c.inv.Label}})
+	}
 
 	// --- a sibling chain that shares the lower links (the leaf included) with the chain that was
 	// just checked, but hangs under ANOTHER parent at one position, and that parent deviates: a
 	// decision about one chain says nothing about another chain through the same delegations
-	if conform && len(c.dlgs) >= 2 && r.Chance(0.3) {
+	if conform && len(c.dlgs) >= 2 && (r.Chance(0.3) || strings.HasPrefix(spot, "sibling-")) {
 		n := len(c.dlgs)
 		j := r.Intn(n - 1) // root .. second-to-last: the delegation that is replaced
 		d2 := c.dlgs[j]
 		d2.Label = g.newDlgLabel()
 		d2.Pol = append([]Stmt{}, d2.Pol...)
 		kind := Pick(r, []string{"K", "K", "P", "Q", "W"})
+		if strings.HasPrefix(spot, "sibling-") {
+			kind = strings.TrimPrefix(spot, "sibling-")
+		}
 		switch kind {
 		case "K":
 			// the parent grants less than the shared link below it passes on
@@ -1052,7 +1180,7 @@ func genWorld(r *Rand, cfg GenCfg) Plan {
 
 	// --- the very proofs of a chain that was just allowed, presented by SOMEBODY ELSE (same
 	// subject, same command, same proof list, another invoker), and by the rightful invoker again
-	if conform && len(c.dlgs) >= 1 && r.Chance(0.25) {
+	if conform && len(c.dlgs) >= 1 && spotWant(r, "other-invoker", 0.25) {
 		inv2 := c.inv
 		inv2.Label = g.newInvLabel()
 		inv2.Iss = g.other(c.inv.Iss, c.dlgs[len(c.dlgs)-1].Aud)
@@ -1194,6 +1322,12 @@ func (g *wgen) deviateP(c, foreign *chain, notShipped map[string]bool) {
 		pos = "leaf"
 	}
 	choice := r.Intn(15)
+	switch spot {
+	case "inv-as-proof":
+		choice = 14
+	case "lookalike":
+		choice = 12 + r.Intn(2)
+	}
 	if len(c.inv.Prf) == 0 && ((choice >= 5 && choice <= 10) || choice == 14) {
 		g.note("P:empty")
 		return
@@ -1301,6 +1435,31 @@ func (g *wgen) deviateK(c *chain) {
 		return
 	}
 	k := r.Range(1, n)
+	switch spot {
+	case "self-K":
+		for i := 1; i < n; i++ {
+			if c.dlgs[i].Iss == c.dlgs[i].Aud {
+				k = i // the self-link is the one that widens
+			}
+		}
+	case "top-under-one":
+		// everything above is "/", link k-1 grants exactly one segment, link k hands out "/" again
+		k = 1 + r.Intn(n-1)
+		seg := Pick(r, cmdSegments[:8])
+		for i := 0; i < k-1; i++ {
+			c.dlgs[i].Cmd = "/"
+		}
+		c.dlgs[k-1].Cmd = "/" + seg
+		for i := k; i < n; i++ {
+			c.dlgs[i].Cmd = "/"
+		}
+		c.inv.Cmd = "/" + seg
+		if r.Chance(0.5) {
+			c.inv.Cmd = extendCmd(r, c.inv.Cmd)
+		}
+		g.note("K:top-under-one-segment@" + fmt.Sprint(k))
+		return
+	}
 	if k == n {
 		nc, kind := notCovered(r, c.dlgs[n-1].Cmd)
 		if nc == "" {
@@ -1348,7 +1507,7 @@ func (g *wgen) deviateQ(c *chain) {
 	if n == 0 {
 		return
 	}
-	if n >= 3 && r.Chance(0.2) && !g.aliasPlan {
+	if n >= 3 && spotWant(r, "alias", 0.2) && !g.aliasPlan {
 		// attenuation by append on live tokens: the leaf's policy is the parent's policy plus one
 		// FALSE statement, in the parent's backing array (which has room); a link further up has at
 		// least one statement. The plan later checks the full chain, then the chain that ends at
@@ -1373,7 +1532,7 @@ func (g *wgen) deviateQ(c *chain) {
 		pos = "leaf"
 	}
 	s := genStmt(r, c.inv.Args, false, 0, true)
-	if r.Chance(0.2) {
+	if spotWant(r, "twin", 0.2) {
 		// twins: the false statement compares an integer argument with a FLOAT of a value for
 		// which the same statement over the integer is true, and that true twin sits elsewhere
 		// in the chain (statements that print alike are still two statements)
@@ -1415,6 +1574,17 @@ func (g *wgen) deviateW(c *chain, tcSec int64) {
 	if r.Chance(0.2) {
 		m = tcSec + simEpochUnix - Pick(r, []int64{0, 1, -1, -2208988800, 946684800})
 	}
+	switch spot {
+	case "far-nbf", "both-bounds", "unbounded-then-bad":
+		if n > 0 && k == n {
+			k = r.Intn(n)
+		}
+	}
+	if spot == "unbounded-then-bad" && n >= 2 {
+		// a link without any bound nearer to the leaf, the bad link above it
+		k = r.Intn(n - 1)
+		c.dlgs[n-1].Nbf, c.dlgs[n-1].Exp = nil, nil
+	}
 	if k == n {
 		c.inv.Exp = ptr(tcSec - m)
 		g.note("W:expired@inv")
@@ -1426,7 +1596,7 @@ func (g *wgen) deviateW(c *chain, tcSec int64) {
 	} else if k == n-1 {
 		pos = "leaf"
 	}
-	if r.Chance(0.5) {
+	if r.Chance(0.5) && spot != "far-nbf" && spot != "both-bounds" {
 		c.dlgs[k].Exp = ptr(tcSec - m)
 		if c.dlgs[k].Nbf != nil && *c.dlgs[k].Nbf > *c.dlgs[k].Exp {
 			c.dlgs[k].Nbf = nil
@@ -1434,8 +1604,12 @@ func (g *wgen) deviateW(c *chain, tcSec int64) {
 		g.note("W:expired@" + pos)
 	} else {
 		c.dlgs[k].Nbf = ptr(tcSec + 1 + m)
-		if r.Chance(0.25) {
+		if spotWant(r, "far-nbf", 0.25) {
 			c.dlgs[k].Nbf = ptr(Pick(r, farFuture) - simEpochUnix)
+		}
+		if spot == "both-bounds" {
+			// not yet active AND carrying an expiration that has not passed
+			c.dlgs[k].Exp = ptr(*c.dlgs[k].Nbf + 1 + int64(r.Range(1, 100000)))
 		}
 		if c.dlgs[k].Exp != nil && *c.dlgs[k].Exp < *c.dlgs[k].Nbf {
 			c.dlgs[k].Exp = nil
